@@ -160,7 +160,7 @@ func c01(c *Ctx) {
 		importSibling(c, "C14", "C01.R7", func(rule string) bool { return rule == "C14.W3" || rule == "C14.W5" })
 		// R8: the replacement that runs is the most recent one — Apply drops an earlier stub, and a stub given after an
 		// Apply is installed (C12.R2)
-		importSibling(c, "C12", "C01.R8", func(rule string) bool { return rule == "C12.R2" })
+		importSibling(c, "C12", "C01.R8", func(rule string) bool { return rule == "C12.R2" || rule == "C12.R1" || rule == "C12.R5" })
 		// R9: a stubbed nil result reaches the caller as the typed zero value of every nilable kind (C09.R1)
 		importSibling(c, "C09", "C01.R9", func(rule string) bool { return rule == "C09.R1" })
 	}
